@@ -35,12 +35,12 @@ pub open spec fn ends_at_lf(a: &DynReader, b: &DynReader) -> bool {
         decreases socket.inp().len(),
 //@ end
 
-//@ hint read_headers before `let buf = read_line(socket)?;`
+//@ hint read_headers before `read_line(socket)`
         let ghost s1_inp = socket.inp();
         let ghost s1_pos = socket.pos();
 //@ end
 
-//@ hint read_headers before `let buf = buf.vf_trim_end();`
+//@ hint read_headers before `.vf_trim_end()`
         proof {
             let i0 = old(socket).inp();
             let d1 = s1_pos - old(socket).pos();
@@ -65,7 +65,7 @@ pub open spec fn ends_at_lf(a: &DynReader, b: &DynReader) -> bool {
         },
 //@ end
 
-//@ hint HttpRequest::read_from before `let buf = buf.vf_trim_end();`
+//@ hint HttpRequest::read_from before `.vf_trim_end()`
         let ghost s1_inp = socket.inp();
         let ghost s1_pos = socket.pos();
 //@ end
@@ -95,7 +95,7 @@ pub open spec fn ends_at_lf(a: &DynReader, b: &DynReader) -> bool {
         },
 //@ end
 
-//@ hint HttpResponse::read_from before `let buf = buf.vf_trim_end();`
+//@ hint HttpResponse::read_from before `.vf_trim_end()`
         let ghost s1_inp = socket.inp();
         let ghost s1_pos = socket.pos();
 //@ end
